@@ -16,11 +16,14 @@ from __future__ import annotations
 import asyncio
 
 from vt import core
+from vt.mon import c38_deferred as DF
 from vt.mon import c38_gen as GEN
 from vt.mon import c38_probe as P
 from vt.mon import c38_shared as SH
 
 PID = "C38"
+DEFERRED_CHANNELS = [c.replace("@", "-at-") for c in DF.CHANNELS]
+DEFERRED_NESTINGS = [">".join(DF._NAME[c] for c in n) for n in DF.NESTINGS]
 LEVEL = "fault_enumeration"
 RULE = ("case = environment (sync or async, autoescape on/off) with 3 generated main templates "
         "(2-4 labelled fragments each: attribute/item access, missing lookups, for loops over "
@@ -38,7 +41,7 @@ RULE = ("case = environment (sync or async, autoescape on/off) with 3 generated 
         "and context variables, __html__ / __format__ objects, pluralize (count expression, named "
         "count, num), message context, trimmed, no variables, direct gettext/ngettext/pgettext/"
         "npgettext calls with keyword variables (new-style) or % / |format (old-style)); SHARED "
-        "STATE (24% of the fragments): every main template imports the generated library slib.j2 "
+        "STATE (30% of the fragments): every main template imports the generated library slib.j2 "
         "(module + Context + eval context cached per environment) whose macros wrap events on their "
         "probe arguments in scoped constructs: autoescape blocks (constant: per case all / half / none of them the opposite of the "
         "environment default / data-dependent incl. a probe as the flag / expression that calls data / "
@@ -51,7 +54,22 @@ RULE = ("case = environment (sync or async, autoescape on/off) with 3 generated 
         "target - by calling the macros of Template.module from Python; autoescape / evalctx blocks "
         "around the global-probe events of the module bodies glib.j2 / incg.j2; eval-context "
         "sensitive filters over probe data and autoescape blocks in the main templates themselves. "
-        "SENTINELS: every cached module (slib.j2, lib.j2, glib.j2) carries a `sense` macro that renders "
+        "DEFERRED CODE (40% of the shared-state fragments): a second cached library dlib.j2 (16 "
+        "entries, 4 table variants x 3 constant patterns) whose macros and call blocks are DEFINED "
+        "inside scoped constructs (autoescape / evalctx / with / loop, nested 1-3 levels: autoescape, "
+        "autoescape>autoescape, autoescape>with, loop>autoescape, evalctx, with, autoescape>loop>with, "
+        "evalctx>autoescape) and CALLED AFTER those constructs ended, so that their own nested scoped "
+        "constructs (autoescape, autoescape>autoescape, evalctx, with>autoescape, autoescape>macro>"
+        "autoescape, data-dependent autoescape) run outside the dynamic extent of the constructs that "
+        "enclose them lexically; the macro object leaves its defining construct through: a module-level "
+        "namespace filled by the module body at import / by a library macro during the render, a "
+        "namespace local to the defining macro, `caller` stored in the module namespace by the macro a "
+        "call block was passed to (module body / library macro), the argument of the main template's "
+        "call block which keeps it in a namespace of its own; called directly, through a {% set %} "
+        "variable of the main template and (sync) through Template.module attribute chains from "
+        "Python; fault at every event inside them (zones deferred-macro|call-block:defined-in=<constructs>:"
+        "called-after-it-ended-via=<channel>); dlib.j2 carries sentinels too. "
+        "SENTINELS: every cached module (slib.j2, dlib.j2, lib.j2, glib.j2) carries a `sense` macro that renders "
         "join / replace / xmlattr over text + Markup constants, a pass_eval_context filter and "
         "a pass_context function reporting eval_ctx.autoescape, a sibling macro call and (new-style "
         "i18n) gettext; zprobe.j2 calls them through import / from-import / an included importer and "
@@ -96,6 +114,10 @@ ASSUMPTIONS = [
     "module-level namespace / cycler of slib.j2 are re-initialised by the macro before it touches "
     "data (their state is the template's own, documented to persist with the cached module); "
     "zone() / mark() are harness globals that only record",
+    "the module-level namespace REG of dlib.j2 only holds macro objects (the same ones after every "
+    "definition); a macro object called after the construct it was defined in has ended is ordinary "
+    "template code: its scoped constructs must restore the eval context of the cached module like "
+    "any other, whatever enclosed the definition lexically",
     "macros called through Template.module from Python are 'rendering' in the sense of the "
     "statement (documented use of the module attribute)",
     "clean reference output = render in the warmed-up environment; a first render in a new "
@@ -120,10 +142,15 @@ FLOORS = {
                            "faults_in_scoped_construct_of_cached_module": 700,
                            "faults_in_scoped_construct_of_cached_module_sync": 450,
                            "faults_in_scoped_construct_of_cached_module_async": 250,
-                           "fault_zone:autoescape-block": 600,
+                           "fault_zone:autoescape-block": 400,
                            "fault_zone:autoescape-block+loopcontrol": 20,
                            "fault_zone:scoped-evalctx-block": 25,
-                           "faults_via_module_api": 250}},
+                           "faults_via_module_api": 250,
+                           "faults_in_deferred_macro_or_call_block_of_cached_module": 150,
+                           "faults_in_deferred_macro_or_call_block_of_cached_module_sync": 90,
+                           "faults_in_deferred_macro_or_call_block_of_cached_module_async": 40,
+                           **{"deferred_via:" + c: 8 for c in DEFERRED_CHANNELS},
+                           **{"deferred_defined_in:" + c: 8 for c in DEFERRED_NESTINGS}}},
     "thorough": {"evaluations": 170000, "distinct": 170000,
                  "counters": {"faults_fired": 170000, "identity_checks": 170000,
                               "post_fault_renders": 500000, "cases": 500,
@@ -140,10 +167,15 @@ FLOORS = {
                               "faults_in_scoped_construct_of_cached_module": 20000,
                               "faults_in_scoped_construct_of_cached_module_sync": 11000,
                               "faults_in_scoped_construct_of_cached_module_async": 8500,
-                              "fault_zone:autoescape-block": 17000,
+                              "fault_zone:autoescape-block": 13000,
                               "fault_zone:autoescape-block+loopcontrol": 1100,
-                              "fault_zone:scoped-evalctx-block": 1100,
-                              "faults_via_module_api": 3000}},
+                              "fault_zone:scoped-evalctx-block": 850,
+                              "faults_via_module_api": 3000,
+                              "faults_in_deferred_macro_or_call_block_of_cached_module": 6000,
+                              "faults_in_deferred_macro_or_call_block_of_cached_module_sync": 3400,
+                              "faults_in_deferred_macro_or_call_block_of_cached_module_async": 2700,
+                              **{"deferred_via:" + c: 800 for c in DEFERRED_CHANNELS},
+                              **{"deferred_defined_in:" + c: 600 for c in DEFERRED_NESTINGS}}},
 }
 
 SYNC_APIS = ["render", "generate", "stream"]
@@ -225,11 +257,15 @@ class CaseEnv:
     def _module_calls(self, data):
         """Template.module from Python: the cached module of slib.j2, its macros
         called with probe data."""
-        mod = self.env.get_template("slib.j2").module
         parts = []
         for mac, args in self.case["modcalls"]:
+            # 'name' = macro of slib.j2; 'tpl:a.b' = attribute chain on the module of tpl
+            tname, _, path = mac.rpartition(":")
+            obj = self.env.get_template(tname or "slib.j2").module
+            for part in path.split("."):
+                obj = getattr(obj, part)
             self._mark("module-api:" + mac)
-            parts.append(str(getattr(mod, mac)(*[SH.resolve_arg(a, data) for a in args])))
+            parts.append(str(obj(*[SH.resolve_arg(a, data) for a in args])))
         return SH.SEG.join(parts)
 
     def run(self, name, api, fault_at=None):
@@ -299,6 +335,15 @@ def check_fault(ctx, ce, clean, target, api, k, fresh=False):
         ctx.count("faults_in_scoped_construct_of_cached_module_"
                   + ("async" if ce.is_async else "sync"))
         ctx.count("fault_zone:" + ev.fired_zone)
+        if ev.fired_zone.startswith("deferred-"):
+            # inside a macro / call block that was defined inside scoped constructs of a
+            # cached module and is called after those constructs ended
+            dz = dict(x.split("=", 1) for x in ev.fired_zone.split(":")[1:])
+            ctx.count("faults_in_deferred_macro_or_call_block_of_cached_module")
+            ctx.count("faults_in_deferred_macro_or_call_block_of_cached_module_"
+                      + ("async" if ce.is_async else "sync"))
+            ctx.count("deferred_defined_in:" + dz["defined-in"])
+            ctx.count("deferred_via:" + dz["called-after-it-ended-via"])
     if target == SH.MODULE_TARGET:
         ctx.count("faults_via_module_api")
     ctx.count("fault_event:" + ev.fired_kind)
